@@ -259,6 +259,13 @@ func (p *Program) globalRegexPattern(pkgPath, name string) (string, token.Pos, b
 }
 
 func checkC11(c *Ctx) {
+	defer func() {
+		if pf := newParserFacts(c); pf.err == nil {
+			ruleErrorsReturnedAs(c, pf.regionFuncs(), "R11.6", func(key string) bool {
+				return !strings.Contains(key, "StringToNote") && !strings.Contains(key, "Atoi#2")
+			}) // a rejected name must reject the configuration
+		}
+	}()
 	fn := c.P.Func(pkgConfig, "", "StringToNote")
 	n2p := c.P.Func(pkgConfig, "", "NoteToPitch")
 	n2o := c.P.Func(pkgConfig, "", "NoteToOctave")
